@@ -45,6 +45,7 @@ type Obligation struct {
 	Env    *Env       // environment of the clause (for known-finding class predicates)
 	ClauseText string
 	ClauseExpr ast.Expr
+	NoFinding  bool
 
 	// filled by the runner
 	Res SolveResult
@@ -136,12 +137,23 @@ type Enc struct {
 	depth      int
 	decls      []string          // declarations that every query of this encoding includes
 	keySorts   map[string]string // every state variable key seen so far
-	seqRecs    []seqTerm
+	seqPairs   []seqPair
 	usesSeq    bool
+	loopDry    int
+	usesLex    bool
 	topName    string
 	topFn      *ssa.Function
 	inputs     []InputVar
 	mapHook    *mapHooks
+	concatBytes map[string][]T
+	splitConds  []splitCond
+}
+
+// splitCond: a condition that selects between memory versions; candidates
+// for case splitting when a query is not decided directly.
+type splitCond struct {
+	c  T
+	at int
 }
 
 func NewEnc(l *Loader) *Enc {
@@ -183,7 +195,21 @@ func (e *Enc) def(hint string, t T) T {
 	}
 	n := e.freshName(hint)
 	e.emit(fmt.Sprintf("(define-fun %s () %s %s)", n, t.Sort, t.S))
+	if bs, ok := e.concatBytes[t.S]; ok {
+		e.concatBytes[n] = bs
+	}
 	return T{n, t.Sort}
+}
+
+// constFor introduces a declared constant equal to t. Unlike def (a macro that
+// the solvers expand), it can be used inside quantifier patterns.
+func (e *Enc) constFor(hint string, t T) T {
+	if !strings.Contains(t.S, " ") && !strings.Contains(t.S, "!") {
+		return t
+	}
+	c := e.freshT(hint, t.Sort)
+	e.emit("(assert (= " + c.S + " " + t.S + "))")
+	return c
 }
 
 func (e *Enc) assume(t T) {
@@ -722,6 +748,18 @@ func (e *Enc) nameVal(v Val, hint string) Val {
 	return v
 }
 
+func (e *Enc) noteSplit(c T) {
+	if e.dry > 0 || c.S == "true" || c.S == "false" {
+		return
+	}
+	for _, sc := range e.splitConds {
+		if sc.c.S == c.S {
+			return
+		}
+	}
+	e.splitConds = append(e.splitConds, splitCond{c, len(e.lines)})
+}
+
 func (e *Enc) mergeStates(ins []edgeIn, hint string) (T, *State) {
 	if len(ins) == 1 {
 		return ins[0].cond, ins[0].st.clone()
@@ -789,7 +827,13 @@ func (e *Enc) mergeStates(ins []edgeIn, hint string) (T, *State) {
 			w := e.getVar(ins[i].st, k, srt)
 			v = ite(ins[i].cond, w, v)
 		}
-		out.vars[k] = e.def("m_"+lastPart(k), v)
+		nv := e.def("m_"+lastPart(k), v)
+		if nv.S != v.S || strings.HasPrefix(v.S, "(ite") {
+			for i := 0; i < len(ins)-1; i++ {
+				e.noteSplit(ins[i].cond)
+			}
+		}
+		out.vars[k] = nv
 	}
 	if havoc {
 		// Some path called an unknown function: a variable first touched after
@@ -884,6 +928,27 @@ func (e *Enc) instr(f *frame, b *ssa.BasicBlock, in ssa.Instruction) {
 	case *ssa.DebugRef:
 	case *ssa.Alloc:
 		t := deref(x.Type())
+		if at, isArr := t.Underlying().(*types.Array); isArr {
+			// arrays live in element memory so that they can be sliced
+			arr := e.newArr()
+			n := bv64(uint64(at.Len()))
+			if isByte(at.Elem()) {
+				m := e.byteMem(e.cur)
+				e.setVar("M|byte", store(m, arr, T{"((as const " + SArr + ") #x00)", SArr}))
+			} else {
+				for _, l := range leavesOf(at.Elem()) {
+					key := memKey(at.Elem(), l.Name)
+					m := e.getVar(e.cur, key, memSort(l.Sort))
+					zero := "false"
+					if l.Sort != SBool {
+						zero = bv(0, sortWidth(l.Sort)).S
+					}
+					e.setVar(key, store(m, arr, T{"((as const (Array (_ BitVec 64) " + l.Sort + ")) " + zero + ")", "(Array (_ BitVec 64) " + l.Sort + ")"}))
+				}
+			}
+			f.vals[x] = Ptr{K: pArr, Sl: Sl{Arr: arr, Off: bv64(0), Len: n, Cap: n, Elem: at.Elem()}, Elem: t}
+			return
+		}
 		if x.Heap {
 			ref := e.newRef()
 			p := Ptr{K: pHeap, Ref: ref, Obj: t, Elem: t}
@@ -1280,6 +1345,11 @@ func (e *Enc) indexAddr(f *frame, x *ssa.IndexAddr) {
 		e.safety(f, "index", ult(idx, base.Len), x.Pos())
 		f.vals[x] = Ptr{K: pElem, Sl: base, Idx: idx, Elem: base.Elem}
 	case Ptr:
+		if base.K == pArr {
+			e.safety(f, "index", ult(idx, base.Sl.Len), x.Pos())
+			f.vals[x] = Ptr{K: pElem, Sl: base.Sl, Idx: idx, Elem: base.Sl.Elem}
+			return
+		}
 		// pointer to array
 		at, ok := deref(x.X.Type()).Underlying().(*types.Array)
 		if ok && at.Len() <= maxArrayFlatten {
@@ -1338,7 +1408,11 @@ func (e *Enc) slice(f *frame, x *ssa.Slice) {
 		}
 		return e.idx64(e.val(v), v.Type())
 	}
-	switch base := e.val(x.X).(type) {
+	bv0 := e.val(x.X)
+	if p, ok := bv0.(Ptr); ok && p.K == pArr {
+		bv0 = p.Sl
+	}
+	switch base := bv0.(type) {
 	case Sl:
 		lo := get(x.Low, bv64(0))
 		hi := get(x.High, base.Len)
